@@ -83,6 +83,17 @@ func assignedParty(msg sdk.Msg) (string, scope) {
 	panic(fmt.Sprintf("no party table entry for %T", msg))
 }
 
+// providerOfAction: the provider whose bid or lease a provider-assigned market action names.
+func providerOfAction(msg sdk.Msg) string {
+	switch m := msg.(type) {
+	case *mtypes.MsgCloseBid:
+		return m.BidID.Provider
+	case *mtypes.MsgWithdrawLease:
+		return m.LeaseID.Provider
+	}
+	return ""
+}
+
 const bechLen = 45 // length of a cosmos1... bech32 account address (20 byte payload)
 
 // parseDepKey parses owner and dseq out of a deployment- or market-store key (documented layout:
@@ -163,6 +174,9 @@ func inScope(ch KVChange, sc scope) (bool, string) {
 func (cs *checkerSet) c06Tx(c *TxCtx) *core.Violation {
 	r := cs.r
 	party, sc := assignedParty(c.Op.Msg)
+	if a, err := sdk.AccAddressFromBech32(party); err == nil {
+		party = a.String() // canonical spelling of the account
+	}
 	// (a) the message asks for exactly the assigned party's signature
 	signers := c.Op.Msg.GetSigners()
 	if len(signers) != 1 || signers[0].String() != party {
@@ -226,6 +240,53 @@ func (cs *checkerSet) c06Tx(c *TxCtx) *core.Violation {
 			}
 		}
 	}
+	// an action the protocol assigns to a provider (close bid, withdraw) does not change the state of
+	// another provider's bid, lease, deposit account or payment (settlement may credit every payment of
+	// the account: balances are not compared) - again unless it ended the whole deployment
+	if prov := providerOfAction(c.Op.Msg); prov != "" {
+		dk := fmt.Sprintf("%s/%d", sc.depOwner, sc.dseq)
+		if c.Before.Deployments[dk].State == c.After.Deployments[dk].State {
+			foreign := func(kind, key, owner string, dseq uint64, p, before, after string) *core.Violation {
+				if owner != sc.depOwner || dseq != sc.dseq || p == prov || before == after {
+					return nil
+				}
+				return r.Flag("C06/touches-other-provider", "%s is an action of provider %s but moved %s %s of provider %s from %s to %s (deployment still active)",
+					describeOp(c.W, c.Op), nameOf(c.W, prov), kind, key, nameOf(c.W, p), before, after)
+			}
+			for _, k := range keysOf(c.Before.Bids) {
+				x, y := c.Before.Bids[k], c.After.Bids[k]
+				if v := foreign("bid", k, x.BidID.Owner, x.BidID.DSeq, x.BidID.Provider, x.State.String(), y.State.String()); v != nil {
+					return v
+				}
+			}
+			for _, k := range keysOf(c.Before.Leases) {
+				x, y := c.Before.Leases[k], c.After.Leases[k]
+				if v := foreign("lease", k, x.LeaseID.Owner, x.LeaseID.DSeq, x.LeaseID.Provider, x.State.String(), y.State.String()); v != nil {
+					return v
+				}
+			}
+			for _, k := range keysOf(c.Before.Payments) {
+				x, y := c.Before.Payments[k], c.After.Payments[k]
+				parts := strings.Split(k, "/") // deployment/owner/dseq/gseq/oseq/provider
+				if len(parts) == 6 && parts[0] == "deployment" {
+					d, _ := strconv.ParseUint(parts[2], 10, 64)
+					if v := foreign("payment", k, parts[1], d, parts[5], x.State.String(), y.State.String()); v != nil {
+						return v
+					}
+				}
+			}
+			for _, k := range keysOf(c.Before.Accounts) {
+				x, y := c.Before.Accounts[k], c.After.Accounts[k]
+				parts := strings.Split(k, "/") // bid/owner/dseq/gseq/oseq/provider
+				if len(parts) == 6 && parts[0] == "bid" {
+					d, _ := strconv.ParseUint(parts[2], 10, 64)
+					if v := foreign("bid deposit account", k, parts[1], d, parts[5], x.State.String(), y.State.String()); v != nil {
+						return v
+					}
+				}
+			}
+		}
+	}
 	// ... and reduces only its signer's balance
 	for _, a := range c.W.Actors {
 		if c.After.Bank[a.Bech].LT(c.Before.Bank[a.Bech]) && a.Bech != party {
@@ -268,10 +329,12 @@ func bidAdmissible(w *World, s *Snap, m *mtypes.MsgCreateBid) string {
 	if !ok {
 		return "provider is not registered"
 	}
-	if m.Provider == m.Order.Owner {
-		return "provider is the tenant"
+	if pa, err := sdk.AccAddressFromBech32(m.Provider); err != nil {
+		return "provider address does not decode"
+	} else if oa, err := sdk.AccAddressFromBech32(m.Order.Owner); err != nil || pa.Equals(oa) {
+		return "provider is the tenant" // the same account, however its address is spelled
 	}
-	max := o.Spec.Price()
+	max := orderMaxPrice(o.Spec)
 	if m.Price.Denom != max.Denom || m.Price.Amount.IsNil() || !m.Price.Amount.IsPositive() {
 		return fmt.Sprintf("price %s is not a valid non-zero price in %s", m.Price, max.Denom)
 	}
